@@ -282,7 +282,9 @@ class OpGraph:
         eid_next = 0
 
         # pad identities and filter out chains with zero coefficients
-        chains = [chain.padded(length, oid_identity) for chain in chains if chain.coeff != 0]
+        # (retaining a single chain if all coefficients are zero, to represent the zero operator)
+        chains = ([chain.padded(length, oid_identity) for chain in chains if chain.coeff != 0]
+                  or [chains[0].padded(length, oid_identity)])
 
         # convert to half-chains and add a dummy identity operator
         vlist_next  = [OpHalfchain(chain.oids + [oid_identity], chain.qnums + [0], node_start.nid) for chain in chains]
